@@ -300,3 +300,7 @@ def _mean_plane(V):
 # new hydrogens are attached with connect/append_bond: the C05 contract of append_bond is part of this claim
 from contracts import C05_alignment as C05
 P.include(C05.P, ["append_bond"], why="hydrogens are bonded through it; it must not adopt atoms the structure already has")
+
+# the hydrogen count uses the bonded valence, i.e. Bond.order of every bond at the centre: that table is part of this claim
+from contracts import C15_graph as C15
+P.include(C15.P, ["Bond.order: the order of every bond type"], why="valence used up by the bonds of the centre")
